@@ -19,7 +19,7 @@ RULE = (
     "invocation index<2) that occurs; EVERY such point is then injected as the failing one, one at a time (plus sampled pairs in one step), "
     "under run (raise and continue) and top-level map (raise and continue), SyncRunner and AsyncRunner under seeded schedules. "
     "Non-trivial = the injected failure actually fired; distinct = digest of (program shape, failure point, mode, completion order)."
-    ' Also: four kinds of injected exception (with/without arguments, TypeError with a call-mismatch text, KeyError), explicit select of all data outputs with on_missing="error" on the failing runs, and partial values of failed items of a top-level map compared between the runners (key presence).'
+    ' Failure points include routing functions of gates (with and without a fallback target). Also: five kinds of injected exception (with/without arguments, TypeError with a call-mismatch text, KeyError, ValueError), explicit select of all data outputs with on_missing="error" on the failing runs, partial values of failed items of a top-level map compared between the runners (key presence), and a map in which exactly one item fails (fault conditioned on the input of that item): the FAILED result must sit at the position of that item under bounded concurrency and out-of-order completion.'
 )
 ASSUMPTIONS = [
     "the state before the failing step equals the fault-free run's state before that step (checked differentially through the step tap)",
@@ -191,11 +191,14 @@ def run_case(doc: dict) -> dict:
     step_of: dict[tuple[str, int], int] = {}
     own = _owner_map(g)
     top_step = -1
+    gate_points: set = set()
     for h in ref["rt"].history:
         if h["k"] == "step_begin" and h.get("r") == tl:
             top_step += 1
-        if h["k"] == "enter" and h.get("nk") == "fn":
+        if h["k"] == "enter" and h.get("nk") in ("fn", "gate"):  # a routing function is a node function too
             key = (h["n"], h["i"])
+            if h.get("nk") == "gate":
+                gate_points.add(key)
             if h["i"] < 2 and key not in seen:
                 seen.add(key)
                 points.append(key)
@@ -217,8 +220,11 @@ def run_case(doc: dict) -> dict:
     last_plan = None
     for pi, plan in enumerate(plans):
         last_plan = plan
-        kinds = ["plain", "noargs", "typeerror_kw", "keyerror"]
-        faults = [{"kind": "raise", "node": n, "inv": i, "when": "before" if (pi + fi) % 2 == 0 else "after", "fid": fi, "exc": kinds[(pi + fi + doc["pair_seed"]) % 4]} for fi, (n, i) in enumerate(plan)]
+        kinds = ["plain", "noargs", "typeerror_kw", "keyerror", "valueerror"]
+        faults = [
+            {"kind": "raise", "node": n, "inv": i, "when": "before" if ((pi + fi) % 2 == 0 or (n, i) in gate_points) else "after", "fid": fi, "exc": kinds[(pi + fi + doc["pair_seed"]) % 5]}
+            for fi, (n, i) in enumerate(plan)
+        ]
         fids = list(range(len(plan)))
         failing_nodes = [n for n, _ in plan]
         cfgs = doc["async"]
@@ -275,6 +281,30 @@ def run_case(doc: dict) -> dict:
     return res
 
 
+def _one_failing_item(doc, g, vals, mp, items, point, rng, res, rts, viol) -> None:
+    """Only ONE item of a top-level map fails (the fault is conditioned on that item's input value): the FAILED result must sit at that
+    item's position, carry the injected object, and every other position must hold a non-failed result - under bounded concurrency
+    with items completing out of order as well."""
+    n, i = point
+    k = rng.randrange(len(items))
+    cfg = dict(doc["async"][1], max_concurrency=rng.choice([1, 2, 2, None]))
+    for mode, c in (("sync", None), ("async", cfg)):
+        faults = [{"kind": "raise", "node": n, "inv": i, "fid": 0, "when": "before", "run_pred": {mp: items[k]}, "depth": 1}]
+        w = run_world(g, vals, mode=mode, cfg=c, faults=faults, run_kwargs={"map_over": mp, "error_handling": "continue"}, op="map")
+        rts.append(w["rt"])
+        res["runs"] += 1
+        sim_stats(res, w["out"])
+        out, rt = w["out"], w["rt"]
+        if len(rt.fired) != 1 or out["status"] != "list" or len(out["items"]) != len(items):
+            continue
+        res["stats"]["one_failing_map_item"] = res["stats"].get("one_failing_map_item", 0) + 1
+        failed = [ix for ix, it in enumerate(out["items"]) if it["status"] == "failed"]
+        if failed != [k]:
+            viol.append((f"map_{mode}_continue:failed_result_at_wrong_position", {"failing_item": k, "failed_positions": failed, "items": items, "max_concurrency": (c or {}).get("max_concurrency")}))
+        elif not _identity(out["items"][k], rt, [0]):
+            viol.append((f"map_{mode}_continue:item_error_is_not_the_injected_object", {"item": k, "got": out["items"][k]["error"]}))
+
+
 def _top_map(doc, g, values, points, rng, res, rts, viol, kw0) -> None:
     """runner.map over one external int input: the failing item's error must surface as the same object."""
     ext = [e for e in g["ext"] if e not in g["lists"] and e in doc["inputs"]["provide"]]
@@ -290,6 +320,8 @@ def _top_map(doc, g, values, points, rng, res, rts, viol, kw0) -> None:
         v[mp] = list(items)
         return v
 
+    if len(items) > 1 and len(set(items)) == len(items):
+        _one_failing_item(doc, g, vals, mp, items, (n, i), rng, res, rts, viol)
     sync_items = None
     for mode, cfg in (("sync", None), ("async", doc["async"][0])):
         for eh in ("raise", "continue"):
